@@ -232,6 +232,33 @@ def run_once(cfg, prefix, gran):
     return env, an, horizon, err
 
 
+def run_twice(cfg, prefix1, prefix2, gran, linear_first=False):
+    """Two analyses on the SAME Analysis object (as Panel.static / ConeCyl.static do when they are called again): the first one
+    follows prefix1, then the callables are replaced by those of a fresh environment following prefix2.  Returns the second
+    environment and the object after the second run."""
+    env1, an, hz1, err1 = run_once(dict(cfg, linear=True) if linear_first else cfg, prefix1, gran)
+    if hz1 or err1:
+        return env1, an, hz1, err1, True
+    first_cs = [np.array(c) for c in (an.cs or [])]
+    first_incs = [float(v) for v in (an.increments or [])]
+    env = Env(cfg, prefix2, gran)
+    an.calc_fext, an.calc_k0, an.calc_fint, an.calc_kT = env.calc_fext, env.calc_k0, env.calc_fint, env.calc_kT
+    env.analysis = an
+    env.snap = []
+    # the lists of the first run must not be taken for states of the second one
+    an_cs_before = an.cs
+    horizon, err = False, None
+    try:
+        with np.errstate(all='ignore'):
+            an.static(NLgeom=True, silent=True)
+    except Horizon:
+        horizon = True
+    except Exception as e:
+        err = repr(e)
+    env.first_run = (first_incs, first_cs, an_cs_before)
+    return env, an, horizon, err, False
+
+
 def oracle(env, an, horizon, err, cfg):
     out = []
     if err is not None:
@@ -332,6 +359,11 @@ def cases(tier, seed):
         depth = (5 if not cfg['line_search'] else 4) if q else (8 if not cfg['line_search'] else 7)
         for first in range(len(ITER_LETTERS)):
             out.append(dict(gran='iter', cfg=dict(cfg, depth=depth), bound=99, first=first))
+    # (e) a second analysis on the same Analysis object: every first-run history up to a depth x second-run first choice
+    for cfg in [dict(DEFAULT, line_search=False, maxNumIter=6), dict(DEFAULT, line_search=False, maxNumIter=6, minInc=0.1, initialInc=0.7),
+                dict(DEFAULT, maxNumIter=6, max_iter_line_search=2)]:
+        for first in range(len(MODES)):
+            out.append(dict(gran='second', cfg=cfg, bound=1 if q else 2, first=first))
     # (d) honest linear problem over the configuration lattice
     for cfg in configs(2 if q else 3):
         out.append(dict(gran='linear', cfg=dict(cfg, linear=True), bound=0, first=None))
@@ -363,6 +395,8 @@ def check_case(case):
         for what, det in oracle(env, an, hz, err, cfg):
             fails.append(fail(what, sig=None, **det))
         return dict(fails=fails, execs=1, states=1, transitions=env.calls, outcomes=['linear'], nontrivial=0)
+    if gran == 'second':
+        return check_second(case)
     stack = [[case['first']] if case['first'] is not None else []]
     cap = int(__import__('os').environ.get('VERIF_C09_CAP', '0'))
     capped = False
@@ -408,6 +442,43 @@ def check_case(case):
                 stack.append(env.choices[:i] + [alt])
     return dict(fails=fails[:8], execs=execs, states=len(visited) + execs, transitions=trans, nontrivial=nontrivial,
                 outcomes=list(outcomes)[:200], capped=capped, merged=merged, max_depth=max_depth, n_outcomes=len(outcomes))
+
+
+def check_second(case):
+    """First run: every mode history with at most `bound` deviations after the given first choice; second run on the same object:
+    default answers, and one deviation at its first choice point.  The oracle is applied to what the object reports after run 2."""
+    cfg, bound = case['cfg'], case['bound']
+    fails, seen = [], set()
+    execs = trans = nontrivial = 0
+    stack = [[case['first']]]
+    firsts = []
+    while stack:
+        prefix = stack.pop()
+        env, an, hz, err = run_once(cfg, prefix, 'mode')
+        execs += 1
+        firsts.append(list(env.choices))
+        dev = [0]
+        for ch in env.choices:
+            dev.append(dev[-1] + (1 if ch != 0 else 0))
+        for i in range(len(prefix), len(env.choices)):
+            if dev[i] + 1 > bound + (1 if case['first'] else 0):
+                continue
+            for alt in range(1, env.points[i][0]):
+                stack.append(env.choices[:i] + [alt])
+    for p1 in firsts:
+        for p2 in ([], [1], [2], [4]):
+            env, an, hz, err, first_failed = run_twice(cfg, p1, p2, 'mode')
+            execs += 1
+            if first_failed:
+                continue
+            trans += len(env.choices)
+            nontrivial += 1
+            for what, det in oracle(env, an, hz, err, cfg):
+                if what not in seen:
+                    seen.add(what)
+                    fails.append(fail('second analysis on the same object: ' + what, sig=None, first_run=p1, second_run=p2,
+                                      increments=[float(v) for v in (an.increments or [])], **det))
+    return dict(fails=fails[:8], execs=execs, states=execs, transitions=trans, nontrivial=nontrivial, outcomes=['second'], n_outcomes=1)
 
 
 def classify(a, cfg):
